@@ -1094,6 +1094,19 @@ type RandReq struct {
 	GraphEvery int     `json:"graphevery"`
 	GraphOut   string  `json:"graphout"`
 	Bias       string  `json:"bias"` // "grow": mostly inserts into one table (deep trees)
+	OrderOut   string  `json:"orderout"` // order trace (locks, stamps, data-file and log writes) for WalOrder.tla
+}
+
+// walMax is the highest LSN among the complete records of the log file.
+func walMax() uint64 {
+	recs, _, _ := storage.VerifDumpWal(filepath.Join(dbDir(), "wal"))
+	var m uint64
+	for _, r := range recs {
+		if r.LSN > m {
+			m = r.LSN
+		}
+	}
+	return m
 }
 
 // recOps decodes the op byte of every recorded log record body.
@@ -1170,6 +1183,33 @@ func randomRun(rq RandReq) (res Result) {
 	}
 	ev := func(m map[string]interface{}) { enc.Encode(m); res.Stats["events"]++ }
 	ev(map[string]interface{}{"e": "reset"})
+	// order trace: what the store did (drained from the hooks) between the harness's own marks
+	omark := func(m map[string]interface{}) {}
+	if rq.OrderOut != "" {
+		of, err := os.Create(rq.OrderOut)
+		if err != nil {
+			res.Diverged = err.Error()
+			return
+		}
+		defer of.Close()
+		ow := bufio.NewWriterSize(of, 1<<20)
+		defer ow.Flush()
+		oenc := json.NewEncoder(ow)
+		storage.VerifRecordIO(false)
+		storage.VerifRecordOrder(true)
+		defer storage.VerifRecordOrder(false)
+		omark = func(m map[string]interface{}) {
+			for _, e := range storage.VerifTakeOrder() {
+				oenc.Encode(e)
+				res.Stats["order-events"]++
+			}
+			if m != nil {
+				oenc.Encode(m)
+			}
+		}
+		defer func() { omark(nil) }()
+		omark(map[string]interface{}{"e": "reset"})
+	}
 	fail := func(msg string) Result {
 		res.OK = false
 		res.Viol = append(res.Viol, msg)
@@ -1233,11 +1273,14 @@ func randomRun(rq RandReq) (res Result) {
 			return false
 		}
 		ev(map[string]interface{}{"e": "pause", "what": "recovered"})
+		omark(map[string]interface{}{"e": "recovered"})
 		res.Stats["recoveries"]++
 		return observe(tables)
 	}
 	for _, t := range tables {
+		omark(map[string]interface{}{"e": "begin", "k": "create"})
 		e, p := w.exec(renderStmt(Step{A: "create", T: t}))
+		omark(map[string]interface{}{"e": "result", "ok": e == nil})
 		if p {
 			return fail("CREATE TABLE panicked: " + e.Error())
 		}
@@ -1291,7 +1334,9 @@ func randomRun(rq RandReq) (res Result) {
 			before = takeSnap()
 			storage.VerifRecordIO(true)
 		}
+		omark(map[string]interface{}{"e": "begin", "k": st.A})
 		e, panicked := w.exec(renderStmt(st))
+		omark(map[string]interface{}{"e": "result", "ok": e == nil})
 		var ios []storage.VerifIO
 		if inWal {
 			ios = storage.VerifTakeIO()
@@ -1331,6 +1376,7 @@ func randomRun(rq RandReq) (res Result) {
 				}
 				evm["e"] = "cut-" + st.A
 				ev(evm)
+				omark(map[string]interface{}{"e": "crash", "maxlsn": walMax()})
 				res.Stats["crash-in-log"]++
 				if !recoverAndObserve() {
 					return
@@ -1342,6 +1388,7 @@ func randomRun(rq RandReq) (res Result) {
 		ev(evm)
 		if crash && !inWal || (inWal && e == nil) {
 			w.abandon()
+			omark(map[string]interface{}{"e": "crash", "maxlsn": walMax()})
 			res.Stats["crash-idle"]++
 			if !recoverAndObserve() {
 				return
